@@ -128,7 +128,7 @@ class CallMixin(object):
                     raise OutsideSubset('call to %s.%s: no contract' % (recv.name, fv.name))
                 return self.call_contract(ct, args, kwargs, st)
             if is_ref(recv.sort):
-                ct = self.reg.method(recv.sort.cls, fv.name)
+                ct = self.reg.method(recv.sort.cls, fv.name, args)
                 if ct is None:
                     raise OutsideSubset('call to %s.%s: no contract' % (recv.sort.cls, fv.name))
                 if not self.spec_mode:
@@ -286,6 +286,13 @@ class CallMixin(object):
         return env
 
     def call_contract(self, ct, args, kwargs, st):
+        before = self.ct.ghost.get('before_call', {}).get(ct.qual.split('@')[0].split('.')[-1])
+        if before and not self.spec_mode:
+            for target, text in before:               # ghost assignments the sidecar places in front of this call
+                val = self.spec_eval(text, st)
+                base, _, attr = target.rpartition('.')
+                recv = self.spec_eval(base, st)
+                self.heap_set(st, self.reg.field_key(recv.sort.cls, attr), recv.t, val)
         env = self.bind_args(ct, args, kwargs, st)
         pre = St()
         pre.env = env
